@@ -44,10 +44,19 @@ fn letter(o: Op) -> char {
     }
 }
 
-/// are the `std::thread::park` hooks of wp-chan.patch in the tree the harness was built from?
+/// are the `std::thread::park` hooks of wp-chan.patch in the tree this binary was built from? The source must have
+/// them AND must not be newer than this executable (a tree patched after the build means a binary without the hook:
+/// a blocking `recv` would then really park and stop the whole controller)
 fn has_park_hook() -> bool {
     let repo = std::env::var("VERIF_REPO").unwrap_or_else(|_| "/repo".into());
-    std::fs::read_to_string(format!("{repo}/src/sync/spsc.rs")).map(|s| s.contains("verif::thread_park")).unwrap_or(false)
+    let src = format!("{repo}/src/sync/spsc.rs");
+    let hooked = std::fs::read_to_string(&src).map(|s| s.contains("verif::thread_park")).unwrap_or(false);
+    let mtime = |p: &std::path::Path| std::fs::metadata(p).and_then(|m| m.modified()).ok();
+    let fresh = match (std::env::current_exe().ok().and_then(|e| mtime(&e)), mtime(std::path::Path::new(&src))) {
+        (Some(exe), Some(s)) => s <= exe,
+        _ => false,
+    };
+    hooked && fresh
 }
 
 pub fn build(rng: &mut Rng, tier: u32) -> Built {
